@@ -53,6 +53,7 @@
 */
 
 #include <stdio.h>
+#include <stdlib.h>
 #include <string.h>
 
 #include "d_string.h"
@@ -70,6 +71,31 @@ static char * my_strdup(const char * source) {
 	}
 
 	return result;
+}
+
+
+/// Do two paths name the same file?  A 'transclude base' of "." or ".." spells
+/// the path of a file differently every time it includes itself.
+static bool is_same_file(const char * a, const char * b) {
+	if (strcmp(a, b) == 0) {
+		return true;
+	}
+
+#if defined(__unix__) || defined(__APPLE__)
+	bool same = false;
+	char * real_a = realpath(a, NULL);
+	char * real_b = realpath(b, NULL);
+
+	if (real_a && real_b) {
+		same = (strcmp(real_a, real_b) == 0);
+	}
+
+	free(real_a);
+	free(real_b);
+	return same;
+#else
+	return false;
+#endif
 }
 
 
@@ -206,7 +232,7 @@ void mmd_transclude_source(DString * source, const char * search_path, const cha
 			for (int i = 0; i < stack_depth; ++i) {
 				temp = stack_peek_index(parse_stack, i);
 
-				if (strcmp(file_path->str, temp) == 0) {
+				if (is_same_file(file_path->str, temp)) {
 					// We have parsed this file already, don't recurse infinitely
 					last_match += 2;
 					goto finish_file;
